@@ -11,6 +11,14 @@ CLAIMS = {
                   "(induction over the list); perm/dup invariance, rank characterisation, reconstruction round trip. count() is tied by "
                   "correspondence (model of count over regenerated tables).", design="7/C17",
              technique="Lean 4 theorems over a hand-written model + differential correspondence (harness vs compiled model) + trace oracle"),
+ "C19": dict(text="Full in the model: for each of the nine models clear(s) equals the constructor's state for s's configuration (state equality, "
+                  "up to the RNG position for cuckoo/reservoir), including TDigest's sample counter. clone independence is trivial on immutable "
+                  "model states; Rust-side aliasing (Rc, RefCell) is covered by the correspondence: clone, divergent mutation, observation.", design="7/C19",
+             technique="Lean 4 state-equality theorems per structure + differential correspondence with cleared-vs-fresh and clone/mutate histories"),
+ "C20": dict(text="Full in the model: deserialize(serialize s) = s for every valid sketch, every successful deserialisation satisfies the "
+                  "constructor invariants, duplicates/omissions/unknown fields/non-byte registers are errors. serde_json's parsing of text into "
+                  "typed fields is trusted; documents with b and registers length varied independently are run through the real deserialiser.", design="7/C20",
+             technique="Lean 4 theorems over a document-level model of visit_map + differential correspondence on generated (mal)formed documents"),
 }
 NOT_YET = "not yet built in this round (planned: Lean model + theorems + correspondence, see DESIGN.md section 7)"
 def main():
